@@ -118,6 +118,21 @@ def report(ctx, res, inputs, events, per_sig=None):
         if per_sig[sig] > MAX_REPLAYS_PER_SIGNATURE:
             continue
         inp, ev = inputs[b["id"]], evs[b["id"]]
+        if b["what"] == "timeout" and not getattr(ctx, "_c05_rechecking", False):
+            # a watchdog timeout is only a verdict on the code if it is reproducible: re-run that one
+            # input alone in a fresh process (a loaded machine must not produce a violation)
+            ctx._c05_rechecking = True
+            try:
+                one = dict(inp, id=1)
+                rp = ctx.path("timeout-recheck-%d.ndjson" % b["id"])
+                vlib.write_ndjson(rp, [one])
+                again = record(ctx, rp, 1, 1)
+            finally:
+                ctx._c05_rechecking = False
+            if again and again[0]["outcome"] != "timeout":
+                ctx.cover(transient_timeouts_not_reproduced=1)
+                ctx.notes.append("input %d timed out once under load and loaded normally when re-run alone (%s)" % (b["id"], again[0]["outcome"]))
+                continue
         ctx.violation({"kind": "load", "input": inp, "event": ev, "verdict": b}, describe(inp, ev, b), signature=sig)
     return per_sig
 
